@@ -96,7 +96,7 @@ def at_scale_case(ctx, g, rng):
 
 
 def run_case(ctx, g, rng):
-    if g % 125 == 125 - 1:
+    if g % 131 == 131 - 1:
         return at_scale_case(ctx, g, rng)
     import pydantic
     from curies.triples import Triple, read_triples, write_triples
